@@ -1,1 +1,8 @@
-//! Hooks for property C30 (empty unless needed).
+//! Hooks for property C30: wrapper for the crate-private `AddressLookupServices::publish`
+//! (the scheduling points are guarded lines inside `add_boxed` / `publish`).
+use crate::address_lookup::{AddressLookupServices, EndpointData};
+
+/// Calls the crate-private `AddressLookupServices::publish`.
+pub fn publish(services: &AddressLookupServices, data: &EndpointData) {
+    services.publish(data)
+}
